@@ -206,6 +206,11 @@ const PRIMS: &[(&str, usize, Option<usize>)] = &[
 fn wrong() -> ErrKind {
     ErrKind::WrongType
 }
+/// a non-list where map / for-each / fold-left / fold-right need a list: "it is an error" in R7RS,
+/// i.e. the behaviour is unspecified
+pub fn unspecified_nonlist() -> ErrKind {
+    ErrKind::Other("unspecified:non-list-argument".into())
+}
 
 pub fn list_from(items: Vec<RVal>, tail: RVal) -> RVal {
     let mut t = tail;
@@ -1009,7 +1014,7 @@ impl Machine {
                 }
                 let mut acc = args[args.len() - 1].clone();
                 for a in args[..args.len() - 1].iter().rev() {
-                    let items = list_items(a).ok_or(wrong())?;
+                    let items = list_items(a).ok_or(if matches!(a, RVal::Pair(_)) { unspecified_nonlist() } else { wrong() })?;
                     acc = list_from(items, acc);
                 }
                 acc
@@ -1030,7 +1035,7 @@ impl Machine {
                 }
             }
             "map" => {
-                let items = list_items(&args[1]).ok_or(wrong())?;
+                let items = list_items(&args[1]).ok_or(unspecified_nonlist())?;
                 let mut out = vec![];
                 for i in items {
                     out.push(self.apply(&args[0], vec![i])?);
@@ -1038,7 +1043,7 @@ impl Machine {
                 list_from(out, RVal::Nil)
             }
             "for-each" => {
-                let items = list_items(&args[1]).ok_or(wrong())?;
+                let items = list_items(&args[1]).ok_or(unspecified_nonlist())?;
                 for i in items {
                     self.apply(&args[0], vec![i])?;
                 }
@@ -1046,7 +1051,7 @@ impl Machine {
             }
             // minischeme argument order: (f element accumulator)
             "fold-left" => {
-                let items = list_items(&args[2]).ok_or(wrong())?;
+                let items = list_items(&args[2]).ok_or(unspecified_nonlist())?;
                 let mut acc = args[1].clone();
                 for i in items {
                     acc = self.apply(&args[0], vec![i, acc])?;
@@ -1054,7 +1059,7 @@ impl Machine {
                 acc
             }
             "fold-right" => {
-                let items = list_items(&args[2]).ok_or(wrong())?;
+                let items = list_items(&args[2]).ok_or(unspecified_nonlist())?;
                 let mut acc = args[1].clone();
                 for i in items.into_iter().rev() {
                     acc = self.apply(&args[0], vec![i, acc])?;
